@@ -32,6 +32,9 @@ structure KInfo where
   lenv : Nat := 0
   /-- `meta::bounded_size_v` (`none` = a failure type) -/
   bsize : Option Nat := none
+  /-- the clipped integers sit in an `nmtools_array` (one common bound), not in a tuple: no branch of the resolver
+      looks at this, it only decides which container a None operand passes through -/
+  clippedArray : Bool := false
   deriving DecidableEq, Repr
 
 /-- result container chosen by the resolver -/
@@ -68,12 +71,16 @@ def sv (cap : Nat) : KInfo := { bsize := some cap }
 def dyn : KInfo := {}
 end KInfo
 
+def listMax : List Nat → Nat
+  | [] => 0
+  | x :: xs => max x (listMax xs)
+
 /-- the type an operand has as a RESULT type (a None operand passes the other operand's type through) -/
 def RType.ofOperand (a : KShape) : RType :=
   if a.info.isNone then .noneT
   else if a.info.const then .constT a.vals
   else match a.info.bounds with
-    | some bs => .clippedT bs
+    | some bs => if a.info.clippedArray then .clippedArr (listMax bs) bs.length else .clippedT bs
     | none =>
       if a.info.lenv > 0 then .arr a.info.lenv
       else match a.info.bsize with
@@ -87,17 +94,13 @@ def RType.info : RType → KInfo
   | .constT v => KInfo.ct v.length
   | .clippedT bs => KInfo.cl bs
   | .arr n => KInfo.arr n
-  | .clippedArr m n => KInfo.cl (List.replicate n m)
+  | .clippedArr m n => { KInfo.cl (List.replicate n m) with clippedArray := true }
   | .svec c => KInfo.sv c
   | .list => KInfo.dyn
 
 /-- `to_value_v`: the values of a constant shape, the bounds of a clipped one -/
 def KShape.toValue (a : KShape) : Option Shape :=
   if a.info.const then some a.vals else a.info.bounds
-
-def listMax : List Nat → Nat
-  | [] => 0
-  | x :: xs => max x (listMax xs)
 
 /-- the constant operand `A` (longer or equally long) against a fixed-length run-time operand
     (broadcast_shape.hpp:373-396): clipped bounds `A_i` as long as every `A_i > 1` -/
